@@ -574,60 +574,67 @@ theorem alignBlock_generated (d : Bytes) (a : Int) (p : UInt8) :
     congr 3
     omega
 
-/-! ## `load_hex_string`, literal branch (hand model `Misc.loadHexString`)
+/-! ## `load_hex_string`, literal branch (hand model `Misc.loadHexString`, behaviour after fixes 69fb592 / fd2f580)
 
-Documented contract: "hexadecimal value … expected size of key in bytes … raises SPSDKError: invalid key".
-What the code does for a string literal `s` (that is not the name of an existing file): `"0x"` is prepended unless
-present, the text goes through `value_to_int` (so `_` separators and `u/l` suffixes are accepted) and the NUMBER is
-written big-endian on `expected_size` bytes by `value_to_bytes(…, align_to_2n=True, byte_cnt=expected_size)`.
-Hence: accepted exactly when the number's width (rounded up to a multiple of 4 from 3 bytes on) fits — not "exactly when the
-literal has `expected_size` bytes": shorter literals are zero-extended on the left, and a literal of exactly 3, 5, 6, 7, …
-bytes with a non-zero first byte is REFUSED.  Recorded as behaviour (callers use sizes 8, 16, 24, 32, 64). -/
+For a string literal `s` (that is not the name of an existing file): `"0x"` is prepended unless present, the text goes
+through `value_to_int` (so `_` separators and `u/l` suffixes are accepted) and the NUMBER is written big-endian on
+`expected_size` bytes by `value_to_bytes(…, align_to_2n=False, byte_cnt=expected_size)`.  Hence: accepted exactly when the
+literal denotes a number below `256 ^ expected_size`, i.e. at most `expected_size` significant bytes — a shorter literal
+is zero-extended on the left, leading zero bytes of a longer one are dropped.  A bytes source must have exactly
+`expected_size` bytes; an int source still goes through `align_to_2n=True` (`widthA`). -/
 
 theorem loadHexString_literal_iff (s : List Char) (n : Int) (hs : s ≠ []) (hn : 1 ≤ n) (b : Bytes) :
     (loadHexString (.str s) n = .ok (some b) ↔
-      ∃ v, valueToInt (with0x s) = some v ∧ widthA v ≤ n.toNat ∧ b = beEnc n.toNat v) ∧
+      ∃ v, valueToInt (with0x s) = some v ∧ v < 256 ^ n.toNat ∧ b = beEnc n.toNat v) ∧
     (loadHexString (.str s) n = .ok (some b) →
       (b.length : Int) = n ∧ ∃ v, valueToInt (with0x s) = some v ∧ beDec b = v) ∧
-    ((¬ ∃ v, valueToInt (with0x s) = some v ∧ widthA v ≤ n.toNat) → loadHexString (.str s) n = .error .spsdk) := by
+    ((¬ ∃ v, valueToInt (with0x s) = some v ∧ v < 256 ^ n.toNat) → loadHexString (.str s) n = .error .spsdk) := by
   rw [loadHexString_str s n hs hn]
   cases hv : valueToInt (with0x s) with
   | none => simp
   | some v =>
-    by_cases hw : widthA v ≤ n.toNat
+    by_cases hw : v < 256 ^ n.toNat
     · simp only [hw, if_true]
       refine ⟨⟨fun h => ⟨v, rfl, hw, ?_⟩, fun ⟨v', e, _, hb⟩ => ?_⟩, fun h => ?_, fun h => absurd ⟨v, rfl, hw⟩ h⟩
       · cases h; rfl
       · cases e; rw [hb]
       · cases h
-        refine ⟨?_, v, rfl, beDec_beEnc _ _ (fits_of_widthA v _ hw)⟩
+        refine ⟨?_, v, rfl, beDec_beEnc _ _ hw⟩
         rw [beEnc_length]; omega
     · simp only [hw, if_false]
       refine ⟨⟨fun h => (by cases h), fun ⟨v', e, hw', _⟩ => ?_⟩, fun h => (by cases h), by simp⟩
       cases e; exact absurd hw' hw
 
 /-- value preserved: the hex text of exactly `expected_size` bytes (lower case, with or without `0x`) loads to those
-    bytes — for the sizes where the `align_to_2n` rounding cannot bite (1, 2 or a multiple of 4) -/
-theorem loadHexString_exact_hex (bs : Bytes) (n : Int) (hlen : (bs.length : Int) = n) (hn : 1 ≤ n)
-    (hq : n ≤ 2 ∨ n % 4 = 0) :
+    bytes — for EVERY size ≥ 1 (before fix 69fb592 this failed for sizes 3, 5, 6, 7, 9, …) -/
+theorem loadHexString_exact_hex (bs : Bytes) (n : Int) (hlen : (bs.length : Int) = n) (hn : 1 ≤ n) :
     loadHexString (.str (hexOf bs)) n = .ok (some bs) ∧
     loadHexString (.str ('0' :: 'x' :: hexOf bs)) n = .ok (some bs) := by
   have hne : bs ≠ [] := by intro h; subst h; simp at hlen; omega
   have hN : n.toNat = bs.length := by omega
   obtain ⟨p1, p2⟩ := valueToInt_hexOf bs hne
-  have hb := byteLen_le _ _ (beDec_lt bs)
-  have hw : widthA (beDec bs) ≤ n.toNat := by
-    unfold widthA; split <;> omega
-  have hw' : widthA (beDec bs) ≤ bs.length := by omega
+  have hw := beDec_lt bs
   constructor
   · rw [loadHexString_str _ n (hexOf_ne_nil bs hne) hn, p1]
-    simp only [hN, hw', if_true, beEnc_beDec]
+    simp only [hN, hw, if_true, beEnc_beDec]
   · rw [loadHexString_str _ n (by simp) hn, p2]
-    simp only [hN, hw', if_true, beEnc_beDec]
+    simp only [hN, hw, if_true, beEnc_beDec]
 
-/-- bytes are returned unchanged WITHOUT a size check; an int is written big-endian on `expected_size` bytes when it fits -/
+/-- a shorter hex literal is zero-extended on the left to `expected_size` bytes -/
+theorem loadHexString_short_hex (bs : Bytes) (n : Int) (hne : bs ≠ []) (hlen : (bs.length : Int) ≤ n) :
+    loadHexString (.str (hexOf bs)) n = .ok (some (beEnc n.toNat (beDec bs))) ∧
+    beDec (beEnc n.toNat (beDec bs)) = beDec bs := by
+  have hpos : 0 < bs.length := List.length_pos_iff.2 hne
+  have hw : beDec bs < 256 ^ n.toNat :=
+    Nat.lt_of_lt_of_le (beDec_lt bs) (Nat.pow_le_pow_right (by omega) (by omega))
+  refine ⟨?_, beDec_beEnc _ _ hw⟩
+  rw [loadHexString_str _ n (hexOf_ne_nil bs hne) (by omega), (valueToInt_hexOf bs hne).1]
+  simp only [hw, if_true]
+
+/-- a bytes source is accepted exactly when it has `expected_size` bytes (returned unchanged); an int is written
+    big-endian on `expected_size` bytes when its `align_to_2n` width fits -/
 theorem loadHexString_bytes_int (n : Int) (hn : 1 ≤ n) :
-    (∀ b : Bytes, b ≠ [] → loadHexString (.bytes b) n = .ok (some b)) ∧
+    (∀ b : Bytes, b ≠ [] → loadHexString (.bytes b) n = if (b.length : Int) = n then .ok (some b) else .error .spsdk) ∧
     (∀ v : Nat, v ≠ 0 → loadHexString (.int v) n =
       if widthA v ≤ n.toNat then .ok (some (beEnc n.toNat v)) else .error .spsdk) := by
   have hn' : ¬ n < 1 := by omega
@@ -643,11 +650,14 @@ theorem loadHexString_bytes_int (n : Int) (hn : 1 ≤ n) :
       getBytesCnt_true v _ hN]
     by_cases hw : widthA v ≤ n.toNat <;> simp [hw]
 
-/-- the recorded deviations from "accepted exactly when the literal has expected_size bytes" -/
-example : loadHexString (.str "010203".toList) 3 = .error .spsdk ∧               -- exactly 3 bytes: refused
+/-- recorded behaviour -/
+example : loadHexString (.str "010203".toList) 3 = .ok (some [1, 2, 3]) ∧          -- exactly 3 bytes (refused before 69fb592)
           loadHexString (.str "0102".toList) 3 = .ok (some [0, 1, 2]) ∧           -- 2 bytes: zero-extended
           loadHexString (.str "0001020304".toList) 4 = .ok (some [1, 2, 3, 4]) ∧  -- 5 bytes with a zero first byte: accepted
-          loadHexString (.bytes [1, 2]) 16 = .ok (some [1, 2]) ∧                  -- bytes: size unchecked
+          loadHexString (.str "0101020304".toList) 4 = .error .spsdk ∧            -- 5 significant bytes: refused
+          loadHexString (.bytes [1, 2]) 16 = .error .spsdk ∧                      -- bytes of the wrong size (accepted before fd2f580)
+          loadHexString (.bytes [1, 2]) 2 = .ok (some [1, 2]) ∧
+          loadHexString (.int 0x010203) 3 = .error .spsdk ∧                       -- int sources still round the width up
           loadHexString (.str "12_34ul".toList) 2 = .ok (some [0x12, 0x34]) ∧     -- number grammar, not just hex digits
           loadHexString (.str "".toList) 2 = .ok none := by decide                -- falsy source: random value
 
